@@ -17,14 +17,21 @@ def applied(t, name_pred=None):
     return out
 
 
+EXTRA_PATHS = []
+
+
 def evaluator_roles(prog, ctx):
     """From Interpolate(): infer prefactor, abscissa array X, coefficient arrays F0..F3, the Locate term."""
     f = prog.fn(Q + 'Interpolate', 1)
     sx = Symx(prog, f)
     outs = [o for o in sx.run() if o.kind == 'return']
-    if len(outs) != 1:
-        raise Undecided('Interpolate has %d return paths' % len(outs))
-    T = outs[0].value
+    # the evaluator is the returning path whose value goes through Locate(); any other returning path is a shortcut that
+    # has to be justified (see check(): Interpolate:every-path)
+    main = [o for o in outs if isinstance(o.value, sp.Basic) and any(a.func.__name__ == Q + 'Locate' for a in applied(o.value))]
+    if len(main) != 1:
+        raise Undecided('Interpolate has %d return paths through Locate()' % len(main))
+    EXTRA_PATHS[:] = [o for o in outs if o is not main[0]]
+    T = main[0].value
     x = sx.symbol(f.params[0]['name'], 'double')
     loc = [a for a in applied(T) if a.func.__name__ == Q + 'Locate']
     if len(loc) != 1:
@@ -93,6 +100,15 @@ def check(prog, ctx):
     ctx.holds('C01.a', 'Interpolate:evaluator-form', f_eval,
               'evaluator is %s*sum_k Fk[j]*(x-%s[j])^k with F0..F3 = %s' % (pref, Xf, [str(n) for n in F]),
               form=str(roles['T']))
+    # shortcuts: a returning path that does not evaluate the segment polynomial is only admissible at an exactly tested point
+    probs = []
+    for o in EXTRA_PATHS:
+        ats = list(o.cond.args) if isinstance(o.cond, sp.And) else [o.cond]
+        if not any(isinstance(a_, sp.Equality) and a_.has(x) for a_ in ats):
+            probs.append('under [%s] Interpolate returns %s instead of the segment polynomial: the curve, its derivative and the '
+                         'reproduction of straight-line data are lost on that whole range of x' % (o.cond, str(o.value)[:80]))
+    ctx.decide('C01.a', 'Interpolate:every-path', f_eval, not probs, 'every returning path evaluates the segment polynomial (%d exact-point shortcuts)' % len(EXTRA_PATHS),
+               '; '.join(probs), witness={'reproducer': 'linear data y=2x+1: evaluate just beyond the last abscissa'} if probs else None)
     # C01.e for Interpolate
     bad = [a for a in applied(roles['T']) if a.args != (j,)]
     okJ = len(roles['Jargs']) == 2 and roles['Jargs'][1] == x
@@ -261,15 +277,15 @@ def check(prog, ctx):
                    'p is not the parabola slope at X(i)', witness={'residual': str(sp.factor(sp.together(sp.expand(resid))))[:400]},
                    form=str(pe))
 
-    check_derivative(prog, ctx, roles)
+    ctx.sub('check_derivative', check_derivative, prog, ctx, roles)
     # dependency: knot reproduction and continuity need the segment search to return the segment that contains x
     from . import C09
     ctx.rule('C01.h', 'dependency on the segment search: the index searches behind Locate agree on the segment of a knot and clamp to the '
              'table ends (rules C09.b/C09.c evaluated here because a wrong segment breaks knot reproduction)', 5)
     loc, closure = C09.locate_and_helpers(prog)
     C09.search_rules(prog, ctx, loc, closure, 'C01.h', 'C01.h')
-    check_bilinear(prog, ctx)
-    check_ctor(prog, ctx, roles, Yf, writer)
+    ctx.sub('check_bilinear', check_bilinear, prog, ctx)
+    ctx.sub('check_ctor', check_ctor, prog, ctx, roles, Yf, writer)
 
 
 def resolve_case(arr, m, kval, Nsym, Nval, k):
